@@ -244,6 +244,15 @@ func init() {
 		ex.res.asserts[ex.termLabel]++
 		return nil
 	}
+	// vSchedBudget(preempt, sched): from here on at most so many pre-emptions and non-default scheduling choices
+	// (set-up phases run with 0, 0; the concurrent phase of a scenario gets the budget)
+	V["vSchedBudget"] = func(ex *Exec, fn *ssa.Function, args []Value) Value {
+		if ex.gor != nil {
+			ex.gor.preemptLeft = int(sext(args[0].(*Term).val, 64))
+			ex.gor.schedLeft = int(sext(args[1].(*Term).val, 64))
+		}
+		return nil
+	}
 	V["vTerminated"] = func(ex *Exec, fn *ssa.Function, args []Value) Value {
 		ex.termLimit = 0
 		return nil
